@@ -29,7 +29,7 @@ from ..recipes import ref as R
 
 LEVEL = "exploration"
 BUDGET_S = {"quick": 75, "thorough": 1500}
-N_RANDOM = {"quick": 150, "thorough": 6000}
+N_RANDOM = {"quick": 800, "thorough": 25000}
 BIG = 1e16
 RTOL = 1e-7
 
